@@ -24,10 +24,16 @@ PROCESSING = ("svgdx::events::tagify_events", "svgdx::transform::process_tags", 
 
 def run(prog, chk):
     bypass(prog, chk)
+    X.check_sinks(prog, chk)  # attribute values / text are held unescaped: the writer must escape unconditionally
+    # the raw comment sink only matters for *generated* comments (F13, a C02/C05 matter); passed-through comments are the input's own
+    chk.obs = [o for o in chk.obs if not (o["key"].startswith("A11.sink/") and o["key"].endswith(":from_escaped:comment"))]
     X.check_readers(prog, chk)
     X.text_bypass(prog, chk)
     stable_sort(prog, chk)
     normalisations(prog, chk)
+    real_svg_scan(prog, chk)
+    reader_defaults(prog, chk)
+    passthrough_str_ops(prog, chk)
 
 
 def _bool_call_gate(body, callee_pred):
@@ -187,3 +193,62 @@ def normalisations(prog, chk):
             blr.where(),
             "write_to passes all character data (also of real SVG) through blank_line_remover, which trims trailing blanks of every line that is followed by a newline: character data `one   \\ntwo` becomes `one\\ntwo`",
         )
+
+
+def real_svg_scan(prog, chk):
+    """is_real_svg looks at every event up to the first element: its loop runs over InputList::iter() itself, not over
+    a truncated / filtered view (a prolog of any length must not hide the namespaced root)"""
+    b = prog.body("svgdx::transform::is_real_svg")
+    chk.touch(b)
+    its = b.call_sites(lambda c: c.decl_path == "std::iter::IntoIterator::into_iter")
+    if len(its) != 1:
+        chk.anchor_missing("A13.real-svg-scan", f"is_real_svg: expected one loop, found {len(its)} into_iter calls")
+        return
+    bb, t, c = its[0]
+    o = R.origin(b, t["args"][0], carriers={})
+    src = Callee(o[2]["fn"]).path if o[0] == "call" and "fn" in o[2] else None
+    chk.ob(src == "svgdx::events::InputList::iter", "A13.real-svg-scan", "is_real_svg:iterator", b.where(bb, t.get("line")), "the real-SVG test scans the event list itself (InputList::iter), up to the first element", f"the real-SVG test iterates over {src or o[0]} instead of the whole event list: a document whose root <svg> comes after a longer prolog (comments, PIs) is not recognised as real SVG, so its own output is re-styled on the second pass")
+
+
+def reader_defaults(prog, chk):
+    """the XML reader runs with quick-xml's default configuration: what is accepted on input is exactly what the writer
+    can produce (stricter settings make the transform reject its own output / valid plain SVG)"""
+    b = prog.body("svgdx::events::InputList::from_reader")
+    chk.touch(b)
+    cfg = [(bb, t, c) for (bb, t, c) in b.call_sites(lambda c: c.path.split("::")[-1] in ("config_mut", "expand_empty_elements", "trim_text", "check_end_names", "check_comments", "trim_markup_names_in_closing_tags") and "quick_xml" in c.path)]
+    rd = b.call_sites(lambda c: "quick_xml" in c.path and c.path.split("::")[-1] in ("from_reader", "read_event_into"))
+    chk.floor("A10.reader-config", len(rd), 2, "quick-xml reader construction / read call in from_reader")
+    chk.ob(not cfg, "A10.reader-config", "from_reader", b.where(cfg[0][0], cfg[0][1].get("line")) if cfg else b.where(), "the reader configuration is quick-xml's default", f"from_reader changes the reader configuration ({sorted({c.path.split('::')[-1] for (_, _, c) in cfg})}): input acceptance no longer matches what the writer emits (e.g. generated comments containing `--`), so re-processing svgdx output can fail")
+
+
+PASSTHROUGH_STR_OK = {
+    ("svgdx::element::SvgElement::new", "split"): (1, "class attribute -> class list, split on single blanks (the list normalisation itself is known finding F23)"),
+    ("svgdx::events::<impl std::convert::From<svgdx::events::OutputEvent> for quick_xml::events::Event<'a>>::from", "replace"): (1, "CDATA: `]]>` is split across two sections (F14)"),
+    ("svgdx::events::<impl svgdx::element::SvgElement>::into_bytesstart::escape_attr", "replace"): (3, "attribute values: & < \" are escaped once on output (F12)"),
+    ("svgdx::events::InputList::from_reader", "rsplit_once"): (1, "indentation of the element = text after the last newline of the preceding text event (metadata only)"),
+    ("svgdx::events::InputList::from_reader", "trim_end_matches"): (1, "indentation detection (metadata only)"),
+    ("svgdx::events::OutputList::blank_line_remover", "trim_end"): (1, "trailing blanks of text lines are trimmed on output (known finding F24)"),
+    ("svgdx::types::ClassList::replace", "split_whitespace"): (1, "class replacement helper of the svgdx pipeline, not on the pass-through path"),
+}
+
+
+def passthrough_str_ops(prog, chk):
+    """reader, element construction, class list and writer apply no character-dropping / character-altering string
+    operation beyond the reviewed ones (each existing one is either an escape, metadata, or a listed finding)"""
+    import collections
+    from props.C01 import strip_closures
+    from props.C19 import TEXT_ALTERING
+
+    seen = collections.Counter()
+    n = 0
+    for b in prog.bodies.values():
+        if not (b.path.startswith("svgdx::events::") or b.path.startswith("svgdx::element::SvgElement::new") or b.path.startswith("svgdx::types::ClassList") or b.path.startswith("svgdx::types::AttrMap") or b.path.startswith("svgdx::types::<impl")):
+            continue
+        for (bb, t, c) in b.call_sites(lambda c: c.path.split("::")[-1] in TEXT_ALTERING and ("str" in c.path.lower() or "string" in c.path.lower())):
+            k = (strip_closures(b.path), c.path.split("::")[-1])
+            seen[k] += 1
+            n += 1
+            ent = PASSTHROUGH_STR_OK.get(k)
+            ok = ent is not None and seen[k] <= ent[0]
+            chk.ob(ok, "A14.passthrough-str-ops", f"{k[0].replace('svgdx::', '')}:{k[1]}#{seen[k]}", b.where(bb, t.get("line")), f"reviewed: {ent[1] if ent else ''}", f"{b.short} applies str::{k[1]}() on the reader / element / writer path; not one of the reviewed places: attribute values, class lists or character data of a passed-through document can be altered", by="table")
+    chk.floor("A14.passthrough-str-ops", n, 9, "character-altering string operation on the reader/writer path")
